@@ -150,6 +150,13 @@ Theorem C07_cell_connections : forall torus dims offsets c,
 Proof. intros. split; [intros; apply conns_nd_In|apply conns_nd_keys_NoDup]. Qed.
 Print Assumptions C07_cell_connections.
 
+(* cell.connections is a dict filled by  connections[d] = target : since no offset occurs twice
+   (C07_offsets_nodup, C07_tables_2d) nothing is overwritten and the dict is the list the model uses *)
+Theorem C07_connections_dict : forall torus dims offsets c,
+  NoDup offsets -> conns_dict torus dims offsets c = conns_nd torus dims offsets c.
+Proof. exact conns_dict_eq. Qed.
+Print Assumptions C07_connections_dict.
+
 (* connection is symmetric: the target is connected back under the opposite offset (which is again an
    offset of the same family), for every dimension vector, torus or not *)
 Theorem C07_symmetric : forall torus dims c d c',
